@@ -232,4 +232,16 @@ def encrypt (km : KM Val) (le : Val → Val → Bool) (tyOf : Val → Val)
   { args := args, kwds := kwds,
     types := if km.typed then some (args.map tyOf, (sortedItems le kwds).map (fun p => tyOf p.2)) else none }
 
+/-! ## chained keymaps: `inner + outer` (`keymaps.py:222-229`, `__chain__` in `encode`/`encrypt`)
+
+`k = inner + outer` is a copy of `outer` that remembers `inner`: `k(*args, **kwds)` builds the
+structured key with the OUTER keymap's settings, hands it — as one positional argument — to the inner
+keymap (structured again with the INNER keymap's settings, then the inner encoder), and finally
+applies the outer encoder.  `x` below is that one argument (the outer structured key as an object),
+`xty` its type and `fastx` whether that type is one of the inner keymap's fast types. -/
+def chainInner (km : KM Val) (le : Val → Val → Bool) (xty : Val) (fastx : Bool) (x : Val) :
+    FlatKey Val ⊕ NonFlatKey Val :=
+  if km.flat then .inl (encodeFlat km le (fun _ => xty) (fun _ => fastx) [x] [])
+  else .inr (encrypt km le (fun _ => xty) [x] [])
+
 end Klepto.Keys
